@@ -63,6 +63,72 @@ fn parse_plain(text: &str, base: u32) -> Option<BigRational> {
     Some(if neg { -q } else { q })
 }
 
+/// reference reader for the scientific forms `[-][0x]d[.ddd]<marker>[-]exp`: returns the value denoted and the
+/// unit of the last printed digit. `digit_base` is the base of the written digits, `scale_base` the base of the
+/// exponent (hex-float output of binary numbers: digits in base 16, exponent in base 2).
+fn parse_sci(text: &str, digit_base: u32, scale_base: u32, marker: char, prefix: &str) -> Option<(BigRational, BigRational)> {
+    let (neg, body) = match text.strip_prefix('-') {
+        Some(b) => (true, b),
+        None => (false, text),
+    };
+    let body = body.strip_prefix(prefix)?;
+    let (mant, exp) = body.rsplit_once(marker)?;
+    let exp: i64 = exp.parse().ok()?;
+    let (ip, fp) = match mant.split_once('.') {
+        Some((a, b)) => (a, b),
+        None => (mant, ""),
+    };
+    if ip.chars().count() != 1 {
+        return None;
+    }
+    let all = format!("{}{}", ip, fp);
+    if !all.chars().all(|c| c.to_digit(36).map_or(false, |d| d < digit_base)) {
+        return None;
+    }
+    let n = BigInt::parse_bytes(all.to_lowercase().as_bytes(), digit_base)?;
+    let unit = pow_q(scale_base, exp) / BigRational::from_integer(Pow::pow(&BigInt::from(digit_base), fp.len()));
+    let q = BigRational::from_integer(n) * &unit;
+    Some((if neg { -q } else { q }, unit))
+}
+
+/// the scientific formats a float type offers: (label, text without precision, text with precision n, digit base,
+/// exponent base, marker, prefix)
+type SciOut = (&'static str, String, String, u32, u32, char, &'static str);
+trait SciFmt {
+    fn sci(&self, n: usize) -> Vec<SciOut>;
+}
+macro_rules! sci_generic {
+    ($B:literal, $lm:literal, $um:literal) => {
+        impl<Rm: dashu_float::round::Round> SciFmt for FBig<Rm, $B> {
+            fn sci(&self, n: usize) -> Vec<SciOut> {
+                #[allow(unused_mut)]
+                let mut v: Vec<SciOut> = vec![
+                    ("{:e}", format!("{:e}", self), format!("{:.*e}", n, self), $B, $B, $lm, ""),
+                    ("{:E}", format!("{:E}", self), format!("{:.*E}", n, self), $B, $B, $um, ""),
+                ];
+                sci_extra!($B, v, self, n);
+                v
+            }
+        }
+    };
+}
+macro_rules! sci_extra {
+    (2, $v:ident, $s:ident, $n:ident) => {
+        $v.push(("{:b}", format!("{:b}", $s), format!("{:.*b}", $n, $s), 2, 2, 'b', ""));
+        $v.push(("{:x}", format!("{:x}", $s), format!("{:.*x}", $n, $s), 16, 2, 'p', "0x"));
+        $v.push(("{:X}", format!("{:X}", $s), format!("{:.*X}", $n, $s), 16, 2, 'p', "0x"));
+    };
+    (16, $v:ident, $s:ident, $n:ident) => {
+        $v.push(("{:x}", format!("{:x}", $s), format!("{:.*x}", $n, $s), 16, 16, 'h', ""));
+        $v.push(("{:X}", format!("{:X}", $s), format!("{:.*X}", $n, $s), 16, 16, 'h', ""));
+    };
+    ($B:literal, $v:ident, $s:ident, $n:ident) => {};
+}
+sci_generic!(2, '@', '@');
+sci_generic!(10, 'e', 'E');
+sci_generic!(16, '@', '@');
+sci_generic!(3, '@', '@');
+
 fn sig_value(r: &mut Rng, m: &Mon, base: u32) -> BigUint {
     let nd = match r.below(6) {
         0 => 1,
@@ -147,7 +213,10 @@ fn text_case<const B: Word>(m: &mut Mon, r: &mut Rng) {
     });
 }
 
-fn print_case<Rm: ModeTag, const B: Word>(m: &mut Mon, r: &mut Rng) {
+fn print_case<Rm: ModeTag, const B: Word>(m: &mut Mon, r: &mut Rng)
+where
+    FBig<Rm, B>: SciFmt,
+{
     let base = B as u32;
     let s = BigInt::from(sig_value(r, m, base)) * if r.bool() { -1 } else { 1 };
     let e = match r.below(6) {
@@ -178,6 +247,24 @@ fn print_case<Rm: ModeTag, const B: Word>(m: &mut Mon, r: &mut Rng) {
         if n > 0 {
             let fd = t2.split_once('.').map(|(_, b)| b.len()).unwrap_or(0);
             ensure!(fd == n, "print_format", "{{:.{}}} printed {:?} with {} fractional digits", n, t2, fd);
+        }
+        Ok(())
+    });
+    // scientific forms: without a precision the text denotes the value exactly; with a precision N the text
+    // denotes the value rounded, under the mode of the type, to the unit of the last digit it shows, and it
+    // shows at least N fractional digits
+    let ns = r.usize(12);
+    let d = || format!("print_sci mode={} base={} x={}*{}^{} N={}", Rm::M.name(), base, s, base, e, ns);
+    m.check("print_sci", &format!("{}/b{}", Rm::M.name(), base), Some(h ^ 0x5c1 ^ (ns as u64) << 32), &d, || {
+        let outs = catch(|| f.sci(ns)).or_else(|p| fail("unexpected_panic", p))?;
+        for (label, plain, withp, db, sb, marker, prefix) in outs {
+            let (v, _) = parse_sci(&plain, db, sb, marker, prefix).ok_or(()).or_else(|_| fail("print_format", format!("{} printed {:?}, not of the form d.ddd{}exp", label, plain, marker)))?;
+            ensure!(v == x, "print_value", "{} printed {:?} which denotes {} instead of the value", label, plain, show_q(&v));
+            let (v2, unit) = parse_sci(&withp, db, sb, marker, prefix).ok_or(()).or_else(|_| fail("print_format", format!("{} with precision {} printed {:?}, not of the form d.ddd{}exp", label, ns, withp, marker)))?;
+            let want = BigRational::from_integer(round_units(&(&x / &unit), Rm::M)) * &unit;
+            ensure!(v2 == want, "print_rounding", "{} with precision {} printed {:?} = {} but the value rounded under {} to the last shown digit is {}", label, ns, withp, show_q(&v2), Rm::M.name(), show_q(&want));
+            let shown = withp.split(marker).next().unwrap_or("").split_once('.').map(|(_, b)| b.len()).unwrap_or(0);
+            ensure!(shown >= ns, "print_format", "{} with precision {} printed {:?} with only {} fractional digits", label, ns, withp, shown);
         }
         Ok(())
     });
